@@ -196,7 +196,7 @@ CHECKS = {
         rule=("real outstation database -> response / unsolicited writers -> relay -> real master parser, extraction and handler; points of all eight types at indices 0 .. 65535 with every configurable static and event variation; values at and around every representation boundary (i16/i32/f32 limits +-1, NaN, infinities, -0.0, random bit patterns, counters around 2^16 and 2^32), every flag octet, 48-bit times along a line with gaps 0, 1, 65534..65536, 70000, negative, and sync flips; "
               "class 0, static reads by type with explicit variation (all objects, 8- and 16-bit ranges), event reads by class and by type with explicit variation (all objects, 8- and 16-bit limited counts) and unsolicited delivery, each read attributed to its records; each handler record is judged by a hand-written 'what this variation can carry' function of the database value"),
         runs=[dict(check="c10", scale=4, timeout_s=900)],
-        required=["event_values_ok", "static_values_ok", "relative_time_reconstructed_ok", "ok_g1v1", "ok_g1v2", "ok_g2v3", "ok_g4v3", "ok_g20v6", "ok_g30v2", "ok_g30v5", "ok_g32v4", "ok_g32v7", "ok_g42v8", "ok_g111v1", "explicit_event_variation_ok", "explicit_static_variation_ok"],
+        required=["event_values_ok", "static_values_ok", "relative_time_reconstructed_ok", "ok_g1v1", "ok_g1v2", "ok_g2v3", "ok_g4v3", "ok_g20v6", "ok_g30v2", "ok_g30v5", "ok_g32v4", "ok_g32v7", "ok_g42v8", "ok_g111v1", "explicit_event_variation_ok", "explicit_static_variation_ok", "update_flags_used"],
         thorough_scale=12.0,
         abnormal_exit_is_violation=True,
         assumptions=HARNESS_TRUST,
